@@ -732,6 +732,9 @@ func (e *execEngine) query(ws []string) string {
 		lock := "-"
 		if p.LockProposalId != "" {
 			lock = p.LockProposalId
+			if k := strings.LastIndex(lock, "-"); k > 0 {
+				lock = "@" + nameOf(lock[:k]) + lock[k:]
+			}
 		}
 		return fmt.Sprintf("- ## status=%s a=%d r=%d init=%d avail=%d special=%d super=%d typ=%s ev=%s obj=%s last=%s strat=%s expr=%s end=%s voters=[%s] electorate=[%s] lock=%s",
 			p.Status, p.ApproveNum, p.AgainstNum, p.InitialElectorateNum, p.AvailableElectorateNum, b2i(p.IsSpecial), b2i(p.IsSuperAdminVoted),
@@ -793,6 +796,30 @@ func (e *execEngine) query(ws []string) string {
 			}
 		}
 		return "- ## " + strings.Join(out, " ")
+	case "gtx": // q gtx <child ibtp id> : the one-to-many record the child belongs to: global state, height, declared count, child states
+		if len(ws) < 2 {
+			return "bad-op"
+		}
+		led := n.ldg.Copy()
+		addr := constant.TransactionMgrContractAddr.Address()
+		ok, gid := led.GetState(addr, []byte(ws[1]))
+		if !ok {
+			return "none"
+		}
+		ok, data := led.GetState(addr, []byte(contracts.GlobalTxInfoKey(string(gid))))
+		if !ok {
+			return "none"
+		}
+		info := contracts.TransactionInfo{}
+		if err := json.Unmarshal(data, &info); err != nil {
+			return "err unmarshal"
+		}
+		var cs []string
+		for id, st := range info.ChildTxInfo {
+			cs = append(cs, fmt.Sprintf("%s=%d", id, int(st)))
+		}
+		sort.Strings(cs)
+		return fmt.Sprintf("g=%d h=%d n=%d children=[%s]", int(info.GlobalState), info.Height, info.ChildTxCount, strings.Join(cs, ","))
 	case "dump":
 		// implementation-only observation: every committed storage key of every built-in contract (hashed values),
 		// balances and nonces of all named accounts.  The model does not predict it ("-").
